@@ -413,6 +413,8 @@ def discharge(w, v, ob):
                 return 'class:counter+1', 'increment by one of a counter bounded by the number of nodes/items'
             if t['binop'] == 'Add' and _is_length(v, a) and (_is_length(v, c)):
                 return 'class:length-sum', 'sum of lengths of input-derived data (bounded by the input size)'
+            if t['binop'] == 'Mul' and (_zero_or_one(w, v, a) or _zero_or_one(w, v, c)):
+                return 'class:zero-or-one-times', 'a product with a factor that is 0 or 1 (a yes/no count) cannot overflow'
             if t['binop'] == 'Sub' and _len_minus_sublen(v, a, c):
                 return 'class:len-minus-sublen', 'len(x) - len(y) where y is x trimmed / stripped (a sub-slice of x is never longer than x)'
             if t['binop'] == 'Sub' and c['o'] == 'const' and c.get('int') is not None:
@@ -467,9 +469,34 @@ VEC_VIEW = re.compile(r'(IntoIterator>::into_iter|IntoIterator::into_iter|::iter
 NEXT_LIKE = re.compile(r'(Iterator::next|Iterator>::next|::nth|::skip|::advance_by|::next_back|::nth_back)$')
 
 
-def _first_of_nonempty(w, v, ob):
+def _first_of_nonempty(w, v, ob, _depth=0):
     b, t, bi = ob['body'], ob['term'], ob['bb']
     facts = [(ty, why) for fn, ty, why in NONEMPTY_VECS if fn.search(b.short)]
+    if not facts and _depth < 2 and ob['op'] in ('remove', 'index', 'unwrap', 'expect') and t['args']:
+        # a helper that takes the vector by value from a function for which the fact is stated (`join_segments(arena, docs, ..)` out of print_doc):
+        # the same operation is judged at every call site with the caller's vector in place of the parameter
+        first = t['args'][0]
+        srcs = [strip_casts(o) for o in v.pv.through(v.pv.origins_operand(first), VEC_VIEW)]
+        if ob['op'] in ('remove', 'index') and srcs and all(o[0] == 'param' and not o[2] for o in srcs) and len(t['args']) > 1 \
+                and t['args'][1].get('o') == 'const' and t['args'][1].get('int') == 0:
+            callers = [(cb, ct) for cb in w.fn_bodies(w.core) for _, ct in cb.calls() if resolved_id(ct) == b.id]
+            whys = set()
+            for cb, ct in callers:
+                cfacts = [(ty, why) for fn, ty, why in NONEMPTY_VECS if fn.search(cb.short)]
+                cv = BodyView(w, cb)
+                good = False
+                for o in srcs:
+                    a = ct['args'][o[1] - 1]
+                    cors = cv.pv.through(cv.pv.origins_operand(a), VEC_VIEW)
+                    for ty, why in cfacts:
+                        if cors and all(x[0] == 'call' and not x[2] and ty.search(cb.locals[cv.pv.call_term(x)['dest']['l']]['ty']['s']) for x in cors):
+                            good = True
+                            whys.add(why)
+                if not good:
+                    return None
+            if callers and whys:
+                return 'first element of a vector that is never empty (handed in by %s): %s' % (', '.join(sorted({cb.short.rsplit('::', 1)[-1] for cb, _ in callers})), sorted(whys)[0])
+        return None
     if not facts:
         return None
 
@@ -480,6 +507,8 @@ def _first_of_nonempty(w, v, ob):
         for ty, why in facts:
             if all(o[0] == 'call' and not o[2] and ty.search(b.locals[v.pv.call_term(o)['dest']['l']]['ty']['s']) for o in ors):
                 return why
+        return None
+    if not facts:
         return None
 
     def const_zero(op):
@@ -522,6 +551,25 @@ def _first_of_nonempty(w, v, ob):
 
 
 SUBSLICE = re.compile(r'core::str::<impl str>::(trim|trim_start|trim_end|trim_start_matches|trim_end_matches|trim_matches|trim_left|trim_right)(::<.*>)?$')
+
+
+def _zero_or_one(w, v, operand, depth=0):
+    """every value the operand can take is the constant 0 or 1 (directly, a bool cast, or the result of a local function returning only those)"""
+    ors = [strip_casts(o) for o in v.pv.peel(v.pv.origins_operand(operand))]
+    if not ors:
+        return False
+    for o in ors:
+        if o[0] == 'const' and isinstance(o[1][1], int) and o[1][1] in (0, 1):
+            continue
+        if o[0] == 'call' and not o[2] and depth < 2:
+            cb = w.bodies.get(resolved_id(v.pv.call_term(o)))
+            if cb is not None and cb.crate is w.core:
+                cv = BodyView(w, cb)
+                rets = [strip_casts(x) for x in cv.pv.peel(cv.pv._origins_local(0, frozenset()))]
+                if rets and all(x[0] == 'const' and isinstance(x[1][1], int) and x[1][1] in (0, 1) for x in rets):
+                    continue
+        return False
+    return True
 
 
 def _len_minus_sublen(v, a, c):
@@ -671,6 +719,18 @@ def _size_origin_ok(w, v, operand, depth):
             return False, 'size has provenance %s' % v.describe(o)
         if o[0] == 'const':
             continue
+        if o[0] == 'binop' and o[1][2].startswith('Add') and depth < 4:
+            # len(..) + len(..) / len(..) + small constant (`with_capacity(s.len() + 1)`): still bounded by the size of existing data
+            rv = b.blocks[o[1][0]]['stmts'][o[1][1]]['rv']
+            fine = True
+            for side in (rv['a'], rv['b']):
+                if side['o'] == 'const' and isinstance(side.get('int'), int) and 0 <= side['int'] <= 4096:
+                    continue
+                ok_, why_ = _size_origin_ok(w, v, side, depth + 1)
+                if not ok_:
+                    fine = False
+            if fine:
+                continue
         # payload of an Option returned by a local function: look inside
         return False, 'size has provenance %s' % v.describe(o)
     return True, 'size is a length/count of existing data'
@@ -749,6 +809,29 @@ def r3_partial_operations(w, which='doc'):
     return r
 
 
+def resolve_through_try(v, origins, depth=0):
+    """replace `Try::branch(x).Continue.0...` origins by what that projection of x is (x may be an aggregate built in an expanded helper)"""
+    out = set()
+    for o in origins:
+        o = strip_casts(o)
+        if o[0] == 'call' and o[2][:2] == (('v', 0), ('f', 0)) and re.search(r'Try>?::branch$', callee_path(v.pv.call_term(o)) or '') and depth < 4:
+            ct = v.pv.call_term(o)
+            arg = ct['args'][0]
+            aty = v.b.locals[arg['p']['l']]['ty']['s'] if arg['o'] in ('copy', 'move') and not arg['p']['proj'] else ''
+            pos = ('v', 1) if aty.startswith('std::option::Option<') else ('v', 0)
+            cur = v.pv.peel(v.pv.origins_operand(arg))
+            for e in (pos, ('f', 0)) + tuple(o[2][2:]):
+                nxt = set()
+                for x in cur:
+                    nxt |= v.pv._project(x, e, frozenset())
+                cur = v.pv.peel(nxt)
+            cur = {x for x in cur if not (x[0] == 'call' and re.search(r'from_residual$', callee_path(v.pv.call_term(x)) or ''))}
+            out |= resolve_through_try(v, cur, depth + 1)
+        else:
+            out.add(o)
+    return out
+
+
 def _table_guard(w, v, ob, key):
     """extra dominance requirements for table entries"""
     b = ob['body']
@@ -817,14 +900,18 @@ def _table_guard(w, v, ob, key):
                             return False
         return True
     if b.short.endswith('format_source_inspect') and ob['op'] == 'unwrap':
-        t = ob['term']
-        for o in v.pv.peel(v.pv.origins_operand(t['args'][0])):
-            if o[0] == 'call' and (callee_path(v.pv.call_term(o)) or '') == 'typst_syntax::SyntaxNode::cast':
-                ct = v.pv.call_term(o)
+        # judged on the entry with its helpers expanded: the root may come through `checked_root(source)?`
+        orig = w.bodies.get(b.id)
+        nb = entry_body(w, orig) if orig is not None else b
+        nv = BodyView(w, nb)
+        t = nb.blocks[ob['bb']]['term'] if ob['bb'] < len(nb.blocks) and nb.blocks[ob['bb']]['term']['t'] == 'call' else ob['term']
+        for o in nv.pv.peel(nv.pv.origins_operand(t['args'][0])):
+            if o[0] == 'call' and (callee_path(nv.pv.call_term(o)) or '') == 'typst_syntax::SyntaxNode::cast':
+                ct = nv.pv.call_term(o)
                 tys = [a for a in ct['callee']['args'] if a.get('k') == 'adt']
-                src = v.pv.peel(v.pv.origins_operand(ct['args'][0]))
-                if tys and grammar.ast_type_name(tys[0]) == 'Markup' and all(
-                        x[0] == 'call' and (callee_path(v.pv.call_term(x)) or '') == 'typst_syntax::Source::root' for x in src):
+                src = resolve_through_try(nv, nv.pv.peel(nv.pv.origins_operand(ct['args'][0])))
+                if tys and grammar.ast_type_name(tys[0]) == 'Markup' and src and all(
+                        x[0] == 'call' and (callee_path(nv.pv.call_term(x)) or '') == 'typst_syntax::Source::root' for x in src):
                     return True
         return False
     if 'align_multiline' in b.short and ob['op'] == 'unwrap':
@@ -1248,13 +1335,43 @@ def fn_param_call_obligations(w):
                     lab = _arg_label(v, op, nps if b.def_kind != 'Closure' else set())
                     own = b.def_kind == 'Closure' and _arg_label(v, op, nps) == 'same' and lab != 'same'
                     cons = {'fn': b.short, 'calls': 'function-typed parameter', 'node_argument': lab if not own else 'own closure parameter'}
-                    if lab == 'descends' or own or (b.def_kind == 'Closure' and _arg_label(v, op, nps) == 'same'):
+                    via_callers = False
+                    if lab == 'same' and b.def_kind != 'Closure':
+                        # a helper handing on its own node parameter: fine when every caller passes a child there (`push_item(child, producer)`)
+                        srcs = [strip_casts(x) for x in v.pv.peel(v.pv.origins_operand(op))]
+                        if srcs and all(x[0] == 'param' and not x[2] for x in srcs):
+                            via_callers = all(_param_descends_at_callers(w, b, x[1], 0) for x in srcs)
+                    if via_callers:
+                        out.append((True, dict(cons, node_argument='own parameter; every caller passes a child'), None, 'item closures receive children only', None))
+                    elif lab == 'descends' or own or (b.def_kind == 'Closure' and _arg_label(v, op, nps) == 'same'):
                         out.append((True, cons, None, 'item closures receive children only', None))
                     else:
                         out.append((False, cons, '%s|fn-param-node|%s' % (b.short, lab),
                                     '%s invokes a function-typed parameter with a node that is not a child of the node it processes (%s): item closures may recurse on the same node'
                                     % (b.short, lab), b.loc(t['span'])))
     return out
+
+
+def _param_descends_at_callers(w, b, pidx, depth):
+    callers = [(cb, t) for cb in w.fn_bodies(w.core) for _, t in cb.calls() if resolved_id(t) == b.id]
+    if not callers or depth > 3:
+        return False
+    for cb, t in callers:
+        if pidx - 1 >= len(t['args']):
+            return False
+        cv = BodyView(w, cb)
+        nps = _node_params(cb)
+        lab = _arg_label(cv, t['args'][pidx - 1], nps if cb.def_kind != 'Closure' else set())
+        if lab == 'descends':
+            continue
+        if cb.def_kind == 'Closure' and _arg_label(cv, t['args'][pidx - 1], nps) == 'same':
+            continue          # the closure's own node parameter: a child handed to it by its caller
+        if lab == 'same':
+            srcs = [strip_casts(x) for x in cv.pv.peel(cv.pv.origins_operand(t['args'][pidx - 1]))]
+            if srcs and all(x[0] == 'param' and not x[2] for x in srcs) and all(_param_descends_at_callers(w, cb, x[1], depth + 1) for x in srcs):
+                continue
+        return False
+    return True
 
 
 def _op_ty(b, op):
